@@ -184,6 +184,13 @@ def obj_state(o, oid_of, pi):
             "tie_next": oid_of.get(id(tn)) if tn is not None else None}
 
 
+def all_elements(part):
+    """Every object of the part.  (Part.iter_all() without a class walks all classes of the interpreter
+    at every time point; every element is a TimedObject.)"""
+    import partitura.score as S
+    return part.iter_all(S.TimedObject, include_subclasses=True)
+
+
 def lcm_list(ds):
     L = 1
     for d in ds:
@@ -229,6 +236,17 @@ def gen_part(rng, pi, d, layout, layout_flags, mode, many_voices=False):
         els.append({"cls": "TimeSignature", "s": 0, "e": None, "beats": layout["ts"][0], "beat_type": layout["ts"][1]})
     if "ks" in layout_flags:
         els.append({"cls": "KeySignature", "s": 0, "e": None, "fifths": layout["ks"][0], "kmode": layout["ks"][1]})
+    # a few positions per part, in this part's own divisions (Part.iter_all() without a class costs
+    # milliseconds per time point, so the number of distinct time points is kept small)
+    grid = sorted(set([0, total] + [rng.randrange(0, total + 1) for _ in range(rng.choice([2, 3, 4, 5]))]))
+
+    def span():
+        a = rng.randrange(0, len(grid) - 1)
+        b = rng.randrange(a + 1, min(len(grid), a + 3))
+        return grid[a], grid[b]
+
+    def point(last=True):
+        return rng.choice(grid if last else grid[:-1])
     voices = list(rng.choice(VOICE_SETS))
     if many_voices:
         voices = rng.choice([[1, 2, 3, 4, 5], [1, 2, 3, 4, 5, 6], [1, 3, 5, 7, 9]])
@@ -240,14 +258,13 @@ def gen_part(rng, pi, d, layout, layout_flags, mode, many_voices=False):
     if many_voices:
         n_notes = max(n_notes, len(voices))
     for k in range(n_notes):
-        s = rng.randrange(0, total)
-        e = min(total, s + rng.randint(1, 2 * d))
+        s, e = span()
         v = voices[k % len(voices)] if (many_voices or rng.random() < 0.5) else rng.choice(voices)
         kind = rng.random()
         if kind < 0.12:
             els.append({"cls": "GraceNote", "s": s, "e": s, "voice": v, "staff": rng.choice(pool), "pitch": rng.randint(40, 90)})
         elif kind < 0.30 and e < total:
-            e2 = min(total, e + rng.randint(1, 2 * d))
+            e2 = rng.choice([t for t in grid if t > e])
             pitch = rng.randint(40, 90)
             st = rng.choice(pool)
             v2 = v if rng.random() < 0.8 else rng.choice(voices + [max(voices) + 1])   # continuation may change voice
@@ -259,8 +276,7 @@ def gen_part(rng, pi, d, layout, layout_flags, mode, many_voices=False):
         note_idx.append(len(els) - 1)
     # rests: mostly in the voices/staves of the notes, sometimes in a voice or staff of their own
     for _ in range(rng.choice([0, 0, 1, 2, 3])):
-        s = rng.randrange(0, total)
-        e = min(total, s + rng.randint(1, 2 * d))
+        s, e = span()
         v = rng.choice(voices) if rng.random() < 0.7 else max(voices) + rng.randint(1, 2)
         st = rng.choice(pool) if rng.random() < 0.75 else rng.choice([1, 2, 3, 4])
         els.append({"cls": "Rest", "s": s, "e": e, "voice": v, "staff": st})
@@ -268,14 +284,14 @@ def gen_part(rng, pi, d, layout, layout_flags, mode, many_voices=False):
     for _ in range(rng.choice([0, 1, 1, 2])):
         st = rng.choice(pool) if rng.random() < 0.7 else rng.choice([None, 1, 2, 3])
         r = rng.random()
-        s = rng.randrange(0, total)
+        s = point(False)
         if r < 0.35:
             els.append({"cls": "Clef", "s": 0 if rng.random() < 0.7 else s, "e": None, "staff": st if st is not None or rng.random() < 0.5 else 1,
                         "sign": rng.choice(["G", "F"])})
         elif r < 0.6:
             els.append({"cls": "Words", "s": s, "e": None, "staff": st})
         else:
-            els.append({"cls": rng.choice(DIRECTIONS), "s": s, "e": rng.choice([None, min(total, s + d)]), "staff": st})
+            els.append({"cls": rng.choice(DIRECTIONS), "s": s, "e": rng.choice([None, rng.choice([t for t in grid if t > s])]), "staff": st})
     # non-structural elements without voice or staff
     real_notes = [i for i in note_idx if els[i]["cls"] == "Note"]
     for _ in range(rng.choice([0, 0, 1, 1, 2])):
@@ -286,15 +302,15 @@ def gen_part(rng, pi, d, layout, layout_flags, mode, many_voices=False):
                 a, b = b, a
             els.append({"cls": rng.choice(["Slur", "Slur", "Tuplet"]), "s": els[a]["s"], "e": max(els[b]["e"], els[a]["s"]), "from": a, "to": b})
         else:
-            s = rng.randrange(0, total + 1)
-            els.append({"cls": rng.choice(OTHERS), "s": s, "e": rng.choice([None, min(total, s + d)])})
+            s = point()
+            els.append({"cls": rng.choice(OTHERS), "s": s, "e": rng.choice([None, rng.choice([t for t in grid if t >= s])])})
     # other structural elements / the classes merge_parts also drops
     for _ in range(rng.choice([0, 0, 0, 1, 1, 2])):
         c = rng.choice(["Barline", "Page", "System", "DaCapo", "Fine", "Fermata", "Ending", "Tempo", "KeySignature", "Clef"])
-        s = rng.choice([0, total, rng.randrange(0, total + 1)])
+        s = rng.choice([0, total, point()])
         el = {"cls": c, "s": s, "e": None}
         if c == "Ending":
-            el["e"] = min(total, s + d)
+            el["e"] = rng.choice([t for t in grid if t >= s])
         if c == "Fermata" and real_notes:
             el["ref"] = rng.choice(real_notes)
             el["s"] = els[el["ref"]]["s"]
@@ -482,7 +498,7 @@ def check_case(case, obs=None):
         after = snapshot(obs["objs"], obs["oid_of"])
         if after != before:
             return "single_modified", "one part given: the part was returned but its elements changed", obs
-        now = sorted(obs["oid_of"].get(id(o), -1) for o in res.iter_all())
+        now = sorted(obs["oid_of"].get(id(o), -1) for o in all_elements(res))
         if now != sorted(b["oid"] for b in before):
             return "single_modified", "one part given: the returned part no longer holds exactly its elements", obs
         return None, "", obs
@@ -502,7 +518,7 @@ def check_case(case, obs=None):
     oid_of = obs["oid_of"]
     merged = []
     seen = set()
-    for o in res.iter_all():
+    for o in all_elements(res):
         oid = oid_of.get(id(o))
         if oid is None:
             return "foreign_element", "merged part holds an object (%s) that is not an element of any input" % type(o).__name__, obs
